@@ -20,7 +20,20 @@ PRELUDE = {
 }
 
 
+_IMPL_SEG = re.compile(r"::<impl ([^<>]*(?:<[^<>]*(?:<[^<>]*>[^<>]*)*>[^<>]*)*)>::")
+
+
 def strip_generics(p):
+    if p is None:
+        return p
+    # inherent impls in another module print as `mod::<impl Type>::method`: keep the type's last segment
+    while True:
+        m = _IMPL_SEG.search(p)
+        if not m:
+            break
+        t = _strip_generics(m.group(1)).split('::')[-1]
+        t = re.sub(r"^&?('[a-z_]+ )?(mut )?", '', t)
+        p = p[:m.start()] + '::' + t + '::' + p[m.end():]
     r = _strip_generics(p)
     return PRELUDE.get(r, r)
 
